@@ -60,6 +60,7 @@ def probe(cs, universe):
         d["rr"] = code(rr)
         d["ln"] = -1
         d["it"] = [-1]
+        d["it2"] = [-1]
         d["mem"] = []
         if r["k"] in (0, 1):
             lo, hi = min(r["a"], r["b"]), max(r["a"], r["b"])
@@ -67,13 +68,18 @@ def probe(cs, universe):
                 d["ln"] = common.enc(len(o)) if (hi < BIG or lo == 0) else (hi - lo)
             except Exception:
                 d["ln"] = -2
+            d["it2"] = [-1]
             if hi < BIG:
                 try:
                     d["it"] = [common.enc(x) for x in o]
                 except Exception:
                     d["it"] = [-2]
+                try:
+                    d["it2"] = [common.enc(x) for x in o]       # a second traversal of the same object
+                except Exception:
+                    d["it2"] = [-2]
             for m in sorted({lo - 1, lo, lo + 1, hi - 1, hi, hi + 1, 0, 7}):
-                if m < 0 or (hi >= BIG and m >= BIG - 10):
+                if m < 0 or (hi >= BIG and m == hi - 1):    # sys.maxsize - 1 has no embedding
                     continue
                 d["mem"].append([m, code(lambda m=m: dec(m) in o)])
         acts.append(d)
